@@ -283,22 +283,38 @@ def isVersioned (id : String) : Bool :=
 /-- `versioned.split('.')[0]` -/
 def unversioned (id : String) : String := String.ofList (id.toList.takeWhile (· != '.'))
 
-/-- `create_gene_id_version_mapper` raises `ValueError('Unversioned gene ID collapsed.')` when two
-gene ids share the unversioned part (the `_PAR_Y` exemption is outside the model) -/
-def hasCollision : List String → Bool
-  | [] => false
-  | x :: xs => xs.any (fun y => unversioned y == unversioned x) || hasCollision xs
+/-- `p in s` for strings (as lists) -/
+def hasInfix (p : List Char) : List Char → Bool
+  | [] => p.isEmpty
+  | c :: cs => p.isPrefixOf (c :: cs) || hasInfix p cs
 
-/-- `GenomicAnnotation.get_gene_model_from_unversioned_id` -/
+/-- `'_PAR_Y' in versioned`: the chrY copy of a pseudo-autosomal gene (GENCODE lists such a gene
+twice, `<id>` on chrX and `<id>_PAR_Y` on chrY) -/
+def isParY (id : String) : Bool := hasInfix "_PAR_Y".toList id.toList
+
+/-- two ids of the list share the unversioned part -/
+def hasCollisionAll : List String → Bool
+  | [] => false
+  | x :: xs => xs.any (fun y => unversioned y == unversioned x) || hasCollisionAll xs
+
+/-- `create_gene_id_version_mapper` raises `ValueError('Unversioned gene ID collapsed.')` when two
+gene ids that are NOT `_PAR_Y` copies share the unversioned part (a `_PAR_Y` id never replaces
+an entry and may be replaced by the chrX id) -/
+def hasCollision (ids : List String) : Bool := hasCollisionAll (ids.filter fun i => !isParY i)
+
+/-- `GenomicAnnotation.get_gene_model_from_unversioned_id`: the mapper holds, per unversioned id,
+the non-`_PAR_Y` gene if there is one, else the first `_PAR_Y` copy -/
 def Anno.findUnversioned (a : Anno) (id : String) : Except FusErr GeneEntry :=
   if a.ensembl then
     match a.find id with
     | some g => .ok g
     | none => .error .geneNotFound
   else if hasCollision (a.genes.map (·.id)) then .error .value
-  else match a.genes.find? (fun g => unversioned g.id == id) with
+  else match a.genes.find? (fun g => !isParY g.id && unversioned g.id == id) with
     | some g => .ok g
-    | none => .error .geneNotFound
+    | none => match a.genes.find? (fun g => unversioned g.id == id) with
+      | some g => .ok g
+      | none => .error .geneNotFound
 
 /-- the gene look-up at the head of `FusionCatcherRecord.convert_to_variant_records` -/
 def fcGenes (anno : Anno) (r : FcRow) : Except FusErr (GeneEntry × GeneEntry) :=
